@@ -20,6 +20,10 @@ CHECKS = {
    technique="TLA+ spec (Nesting.tla: scoping-unit tree, F2018 host/use association rule, per-scope table mechanism incl. the shared-dictionary deviation) model-checked with TLC; every generated placement replayed into FORD's correlator",
    text="For each name class (type, abstract interface, procedure) TLC enumerates every set of scoping units (module, two sibling module procedures, an internal procedure, a second module, an external procedure) that declare the name and every placement of a USE, checks InnermostWins / SiblingInvisible / UnresolvedStaysText on the rule and that the table-copy mechanism refines it; each case is rendered (2 spellings, direct and re-exported through a third module), correlated by the real FORD in several file orders and every reference slot (variable type, extends, procedure pointer, call, binding target, final, generic specific) compared with Ref.",
    note="Exhaustive over the fixed scoping tree (<=6 declaration sites, 6 USE placements, 3 classes). Structure constructors, submodule parents and separate module procedure interfaces are not in this generator. Trusted: TLC, renderer, CPython."),
+ "C10": dict(level="model_checking", ref="DESIGN.md 6/C10, 4.7, B.8",
+   technique="TLA+ spec (Names.tla: NameSelector mechanism, Injective/Stable) model-checked with TLC; TLC-generated entity multisets built end to end by FORD; every recorded get_name call validated by TLC (Names_Trace.tla)",
+   text="TLC checks that the selector hands distinct entities of one output directory distinct case-insensitive stems for every call sequence up to the bound and enumerates entity multisets over related names (case variants, operator/assignment interfaces, module vs submodule, unnamed programs and block data, equal file names in different directories); each multiset is rendered as a project and built by the real FORD: page objects vs files written, the page at every entity's URL holds that entity's tracer, ids unique per page, src/ copies serve the defining file; the get_name calls of every run are replayed by TLC against the selector model (returned stem = model stem, Injective after every call).",
+   note="Bounded: sequences of <=2-3 entities over 15 (directory, name) pairs, plus seeded samples. Stem normalisation (lower-case + 4 symbol replacements) is supplied by the harness to TLC. Trusted: TLC, bs4 html.parser, renderer."),
 }
 
 NOT_YET = {}
